@@ -1348,10 +1348,21 @@ func e2eEval(idx int64, param string) *explore.Result {
 
 // enumeration 4: the same Before chains with ONE SortOrder value shared by all
 // requests of the chain (the natural way to write a paging loop)
-func sharedTotal(param string) int64 { return nOrders(4, 1) * 4 }
+// (one case: the inner loop covers every order of <=1 key x page sizes 1..4 and
+// reports the first failing chain, so that one defect gives one violation)
+func sharedTotal(param string) int64 { return 1 }
 
-func sharedEval(idx int64, param string) *explore.Result {
-	res := &explore.Result{}
+func sharedEval(_ int64, param string) *explore.Result {
+	res := &explore.Result{Outcome: "ok"}
+	for idx := int64(0); idx < nOrders(4, 1)*4; idx++ {
+		if f := sharedOne(idx, res); f {
+			return res
+		}
+	}
+	return res
+}
+
+func sharedOne(idx int64, res *explore.Result) bool {
 	order := orderOf(idx/4, 4)
 	p := int(idx%4) + 1
 	list := []int{0, 4, 8, 2, 3}
@@ -1360,7 +1371,7 @@ func sharedEval(idx int64, param string) *explore.Result {
 	if fail != "" {
 		res.Failure = fail
 		res.Key = "shared-sortorder build"
-		return res
+		return true
 	}
 	defer r.Close()
 	x := &e2e{r: r, list: list, numPos: map[uint64]int{}}
@@ -1368,7 +1379,7 @@ func sharedEval(idx int64, param string) *explore.Result {
 	if fail != "" {
 		res.Failure = fail
 		res.Key = "shared-sortorder reference"
-		return res
+		return true
 	}
 	var rows []row
 	for i, k := range list {
@@ -1397,7 +1408,7 @@ func sharedEval(idx int64, param string) *explore.Result {
 	if fail != "" || !sameInts(hitPos(all), fullT) {
 		res.Failure = fmt.Sprintf("shared-sortorder: full search failed: %s %v", fail, hitPos(all))
 		res.Key = "shared-sortorder full"
-		return res
+		return true
 	}
 	for _, dir := range []string{"after", "before"} {
 		var key [][]byte
@@ -1429,7 +1440,7 @@ func sharedEval(idx int64, param string) *explore.Result {
 				res.Key = "paging-chain-with-shared-SortOrder:" + dir
 				res.Failure = fmt.Sprintf("%s: a %s chain of page size %d that passes the same search.SortOrder value %s to every request: page %d returned %s, expected %s (%s); corpus %s",
 					res.Key, dir, p, orderString(tot), page, posString(list, hitPos(got)), posString(list, want), fail, corpusString(list))
-				return res
+				return true
 			}
 			if len(got) == 0 {
 				break
@@ -1443,8 +1454,7 @@ func sharedEval(idx int64, param string) *explore.Result {
 			}
 		}
 	}
-	res.Outcome = fmt.Sprint(idx)
-	return res
+	return false
 }
 
 // enumeration 5: text values at the edges of the byte order next to a missing
@@ -1458,7 +1468,11 @@ func boundaryTotal(param string) int64 { return int64(len(boundaryVals)) }
 func boundaryEval(idx int64, param string) *explore.Result {
 	res := &explore.Result{}
 	v := boundaryVals[idx]
-	res.Key = fmt.Sprintf("boundary-text: value=%q next to a missing value", v)
+	label := map[string]string{"": "empty-string", "\x00": "NUL-byte", "\x00\x00": "two-NUL-bytes", "\x01": "byte-01"}[v]
+	if label == "" {
+		label = v
+	}
+	res.Key = fmt.Sprintf("boundary-text: value=%s next to a missing value", label)
 	perms := [][]int{{0, 1, 2}, {0, 2, 1}, {1, 0, 2}, {1, 2, 0}, {2, 0, 1}, {2, 1, 0}}
 	names := []string{fmt.Sprintf("%q", v), "missing", "\"n\""}
 	for _, pm := range perms {
@@ -1556,7 +1570,8 @@ func main() {
 	}
 	c.Rule = "collector-orders: every sort order of 0-3 keys over {score,text,num} x {asc,desc} x {missing first,last} (1885 orders) x every match list up to a length bound over the alphabet score{1,2} x text{x,y,missing} x num{-1.5,2,missing} projected on the attributes the order reads (orders of <=2 keys: 9 letters: length<=3; 6: <=3 quick/<=4 thorough; 3: <=5/<=6; 2: <=6/<=9; orders of 3 keys: 18, 9 and 6 letters: <=2/<=3; 3: <=4/<=5; 2: <=6/<=8) x (n,from) in {0..L+1}^2 plus (11,0), (0,11), (6,5) beyond the store switch (thorough, orders of <=2 keys: all of {0..13}^2); " +
 		"collector-grid: every list of length 0..12 (thorough 0..13) over score{1,2}, of length <=5 (<=6) over text{x,missing} x score{1,2}, thorough also <=8 over score{1,2,3}, x all (n,from) in {0..13}^2 x 2-4 orders; " +
-		"e2e: corpora over 9 document kinds (orthogonal array over text{x,y,missing} x num{-1.5,2,missing} x date{1960,2020,missing} x body{w, w w, v}): quick = every list of <=2 documents in every segment layout (one batch, every split in two batches, a leading document deleted by a later batch) with every order of <=2 keys over {score,text,num,date} on the two-segment layout and of <=1 key on the others, every list of 3 documents in two segments with orders of <=1 key, 72 strided 3-document and 27 strided 6-document lists in every layout with <=1 key, one 6-document list with <=2 keys; thorough = lists <=2 with <=3 keys on the two-segment layout and <=2 keys on the others, all lists of 3 (<=1 key, two segments), strided lists of 3 (<=2 keys), 4, 5 and 6 (<=1 key, three of them <=2 keys) in every layout; each x 2 queries (match-all: equal scores; body:w: different scores, a proper subset matches) x (n,from) in {0..L+1}^2 plus (11,0),(2,9) x After and Before chains of every page size 1..matches+1 under the order with _id appended (ascending; thorough also descending) x the SortBy([]string) form where one exists; plus two probes: paging chains that share one SortOrder value, and text values next to the missing-value sentinels; " +
+		"e2e-shared-sortorder: After and Before chains of page sizes 1..4 under every order of <=1 key (+_id) on a 5-document corpus where ONE search.SortOrder value is passed to every request of the chain; e2e-boundary-text: the keyword values m, 0x01, 0x00 0x00, the empty string and 0x00 next to a document without the field and a document with value n, in all 6 index orders under the 4 single-key text orders; " +
+		"e2e: corpora over 9 document kinds (orthogonal array over text{x,y,missing} x num{-1.5,2,missing} x date{1960,2020,missing} x body{w, w w, v}): quick = every list of <=2 documents in every segment layout (one batch, every split in two batches, a leading document deleted by a later batch) with every order of <=2 keys over {score,text,num,date} on the two-segment layout and of <=1 key on the others, every list of 3 documents in two segments with orders of <=1 key, 72 strided 3-document and 27 strided 6-document lists in every layout with <=1 key, one 6-document list with <=2 keys; thorough = lists <=2 with <=3 keys on the two-segment layout and <=2 keys on the others, all lists of 3 (<=1 key, two segments), strided lists of 3 (<=2 keys), 4, 5 and 6 (<=1 key, three of them <=2 keys) in every layout; each x 2 queries (match-all: equal scores; body:w: different scores, a proper subset matches) x (n,from) in {0..L+1}^2 plus (11,0),(2,9) x After and Before chains of every page size 1..matches+1 under the order with _id appended (ascending; thorough also descending) x the SortBy([]string) form where one exists; " +
 		"an evaluation is non-trivial when the expected slice is non-empty and is not simply the first matches in index order (paging requests: when the page is non-empty)"
 	c.Explanation = "bounded-exhaustive enumeration; oracle = stable sort of the matches in index order by the documented key semantics (missing first/last independent of direction, hit order as the last tie-break), window [from, from+n); page concatenation equals the full order with every page full; scores for the end-to-end layer are those the AllMatches collector reports for the same query"
 	c.Assumptions = []string{
@@ -1574,9 +1589,9 @@ func main() {
 	}{
 		{"c09-collector-orders", 16 * time.Second, 4 * time.Minute},
 		{"c09-collector-grid", 9 * time.Second, 90 * time.Second},
+		{"c09-e2e", 24 * time.Second, 4 * time.Minute},
 		{"c09-e2e-shared-sortorder", 4 * time.Second, 10 * time.Second},
 		{"c09-e2e-boundary-text", 4 * time.Second, 10 * time.Second},
-		{"c09-e2e", 24 * time.Second, 4 * time.Minute},
 	} {
 		if only != "" && e.name != only && e.name != "c09-"+only {
 			continue
